@@ -35,6 +35,7 @@ static void asan_report_cb(const char *) {
     // tell the driver what kind of custom-arena address the sanitizer tripped over (freed block vs redzone)
     if (!__asan_get_report_address) return;
     const char *c = asim::classify_address(__asan_get_report_address());
+    if (borrowed::contains(__asan_get_report_address())) c = "access-beyond-a-lent-text";
     char buf[160];
     int n = snprintf(buf, sizeof buf, "CJSIM-ARENA: %s\n", c);
     if (n > 0) { ssize_t wr = write(2, buf, (size_t)n); (void)wr; }
